@@ -109,3 +109,6 @@ def run(ctx):
     rules.elements_adjacent_complete(ctx)  # the predicate that routes a pair to the singular rule (ADJ-9)
     c06.piola(ctx)  # the Maxwell kernels read the Piola-mapped functions and edge lengths from these helpers
     c11.edge_convention(ctx)
+    from .. import spaces as _spaces
+
+    _spaces.localised_inherit(ctx)  # singular parts, sparse forms, potentials and FMM point maps are computed on the localised companion space
